@@ -157,6 +157,14 @@ class Runtime:
                 mod = types.ModuleType(modname)
                 mod.__file__ = fname
                 sys.modules[modname] = mod
+                # test-model modules may draw their weights from numpy's / random's global generators at import time: the
+                # model is the *input* of the operation and has to be the same in every simulated process
+                import random
+
+                import numpy
+
+                numpy.random.seed(0)
+                random.seed(0)
                 exec(compile(m["src"], fname, "exec"), mod.__dict__)  # noqa: S102
                 self.long[("scriptmodel", h)] = mod
             ns = self.long[("scriptmodel", h)].__dict__
@@ -291,7 +299,7 @@ class Runtime:
         h = _sha(src.encode())
         reuse = op.get("reuse") and h in self.modules
         if reuse:
-            ns = self.modules[h]
+            ns, fns = self.modules[h]
         else:
             scratch = os.environ.get("DSIM_SCRATCH")
             if op.get("shared_filename") and scratch:
@@ -317,8 +325,10 @@ class Runtime:
                     self.long["dec"] = onnxscript.script()
                 ns["DEC"] = self.long["dec"]
             exec(compile(src, fname, "exec"), ns)  # noqa: S102 - the script under translation
-            self.modules[h] = ns
-        fns = [(k, v) for k, v in ns.items() if isinstance(v, onnxscript.OnnxFunction) and not k.startswith("_")]
+            # the long-lived OnnxFunction objects under the names they were defined with: a later revisit (reuse) asks these
+            # objects again, whatever the mutation step has rebound the module's names to in the meantime
+            fns = [(k, v) for k, v in ns.items() if isinstance(v, onnxscript.OnnxFunction) and not k.startswith("_")]
+            self.modules[h] = (ns, fns)
         only = op.get("fns")
         if only:
             fns = [(k, v) for k, v in fns if k in only]
